@@ -3,6 +3,7 @@
 //! Part 1 (`ipa.rs`): the inner-product argument of the light aggregator.
 use mzkh::Ctx;
 
+mod acc;
 mod aggregator;
 mod gadget;
 mod ipa;
@@ -80,6 +81,8 @@ fn run_gadget(ctx: &mut Ctx) {
         let extra_k = if rng.gen_bool(0.3) { rng.gen_range(1..=3) } else { 0 };
         gadget::run_light(ctx, &mut setup, &fp, extra_k, 600 + i as u64, n_mut);
     }
+    // (H1) altered advice values inside the verifier circuit
+    gadget::tamper_light(ctx, &mut setup, &shapes[1].0, 650, if ctx.quick() { 12 } else { 120 });
     // foreign-curve back-end (big circuits)
     let n_foreign = match ctx.tier.as_str() {
         "quick" => 2,
@@ -123,6 +126,10 @@ fn main() {
     let only = std::env::var("C20_ONLY").ok();
     if only.as_deref().map_or(true, |o| o == "ipa") {
         run_ipa(&mut ctx);
+    }
+    if only.as_deref().map_or(true, |o| o == "acc") {
+        let n = if ctx.quick() { 60 } else { 400 };
+        acc::run(&mut ctx, n);
     }
     if only.as_deref().map_or(true, |o| o == "gadget") {
         run_gadget(&mut ctx);
